@@ -51,7 +51,7 @@ class C02(Prop):
     k2_frames = 40
     num = 2
     regions = {'quick': [('core', 70), ('block', 70), ('routers', 40), ('renege', 50), ('preempt', 50), ('sched', 40),
-                         ('sched_block', 30), ('schedpre', 40), ('slotted', 40), ('slotted_pre', 40), ('dyn', 40), ('all', 50),
+                         ('sched_block', 30), ('schedpre', 40), ('slotted', 40), ('slotted_pre', 40), ('renege_schedpre', 40), ('dyn', 40), ('all', 50),
                          ('preempt_block', 25), ('schedpre_block', 25)]}
     rule = ('one case = one observed run; non-trivial = the run had two events at the same instant and a blocked '
             'customer or a restart after interruption; distinct = distinct configuration hashes')
